@@ -1,7 +1,7 @@
 """Processes that sample ``Process.current()`` everywhere (C18).
 
 script = {'segments': [[op, ...], ...]}      one segment = one step (Continue between segments)
-ops: ['yield'] | ['sample', tag] | ['soon', tag] | ['launch', script] | ['nested', script] | ['parent_soon', tag]
+ops: ['yield'] | ['sample', tag] | ['soon', tag] | ['asoon', tag, n] | ['launch', script] | ['nested', script] | ['parent_soon', tag]
      | ['await_children'] | ['out', port, value] | ['wait']   (wait: Wait command at end of this segment, harness resumes)
 Every sample is appended to the module-level LOG as
     [pid, kind, where, Process.current() is self, pid of current or None]
@@ -60,7 +60,7 @@ class CurProc(plumpy.Process):
         last = self.seg >= len(self.script['segments'])
         if last:
             return 'done-%s' % self.raw_inputs['name']
-        nxt_sync = all(op[0] in ('sample', 'soon', 'out', 'parent_soon', 'parent_ctl') for op in self.script['segments'][self.seg]) and self.script.get('sync')
+        nxt_sync = all(op[0] in ('sample', 'soon', 'asoon', 'out', 'parent_soon', 'parent_ctl') for op in self.script['segments'][self.seg]) and self.script.get('sync')
         fn = self.scont if nxt_sync else self.cont
         if wait:
             return ps.Wait(fn, 'w')
@@ -79,6 +79,9 @@ class CurProc(plumpy.Process):
             sample(self, 'step', 'seg%d:%s' % (i, op[1]))
         elif kind == 'soon':
             self.call_soon(_cb(self, op[1]))
+        elif kind == 'asoon':
+            # a coroutine callback: it may start while the step that scheduled it is still in flight and outlive it
+            self.call_soon(_acb(self, op[1], op[2]))
         elif kind == 'out':
             self.out(op[1], op[2])
         elif kind == 'parent_ctl':
@@ -142,6 +145,17 @@ def _cb(proc, tag):
         sample(proc, 'callback', tag)
 
     callback.__name__ = 'cb_%s' % tag
+    return callback
+
+
+def _acb(proc, tag, nyields):
+    async def callback():
+        sample(proc, 'callback', tag + ':entry')
+        for k in range(nyields):
+            await asyncio.sleep(0)
+            sample(proc, 'callback', '%s:after-await' % tag)
+
+    callback.__name__ = 'acb_%s' % tag
     return callback
 
 
